@@ -117,14 +117,17 @@ Section History.
   Hypothesis Fs : pc_fs c = read_path root cwd.
   Hypothesis RP : resolve_path root cwd (h_path (pc_host c) ++ [c_slash] ++ h_public (pc_host c)) = Some P.
 
+  Variable f : front.
+
   Lemma step_request_ok st m t k :
     state_ok c P st ->
-    answer_ok c P (fst (step_request c st m t k)) /\ state_ok c P (snd (step_request c st m t k)).
+    answer_ok c P (fst (step_request_with f (fmt_std c) c st m t k)) /\
+    state_ok c P (snd (step_request_with f (fmt_std c) c st m t k)).
   Proof.
-    intros [Hc Hf]. unfold step_request, step_request_with.
-    destruct (target_uri t) as [[p q]|]; [|split; [exact I|split; assumption]].
+    intros [Hc Hf]. unfold step_request_with.
+    destruct (f_uri f t) as [[p q]|]; [|split; [exact I|split; assumption]].
     cbn zeta.
-    set (k' := eff_kind t k).
+    set (k' := f_kind f t k).
     set (ov := override_of (pc_default_ext c) m k').
     destruct (keys_of ov (primed_path (pc_host c) p) q) as [kpq kp].
     destruct (cache_lookup (pc_cache c) kpq kp (fst st)) as [cr0|] eqn:Hit.
@@ -192,12 +195,25 @@ Section History.
           (split; [|exact T2]); cbn [fst]; [constructor; [exact Hb|exact Hc]|exact Hc].
   Qed.
 
+  Lemma strip_head_body_ok m x : answer_ok c P x -> answer_ok c P (strip_head_body m x).
+  Proof.
+    unfold strip_head_body. destruct (beq m (B "HEAD")); [|exact (fun H => H)].
+    destruct x as [n|b|l]; try exact (fun H => H).
+    destruct l as [|x1 l]; [exact (fun H => H)|]. destruct x1 as [n|b|l1]; try exact (fun H => H).
+    destruct l as [|x2 l]; [exact (fun H => H)|]. destruct x2 as [n2|b|l2]; try exact (fun H => H).
+    destruct l as [|x3 l]; [exact (fun H => H)|]. destruct l as [|x4 l]; [exact (fun H => H)|].
+    destruct l; [|exact (fun H => H)]. intros _. right. right. left. reflexivity.
+  Qed.
+
   Lemma step_op_ok st o :
     state_ok c P st ->
-    answer_ok c P (fst (step_op c st o)) /\ state_ok c P (snd (step_op c st o)).
+    answer_ok c P (fst (step_op_with f (fmt_std c) c st o)) /\ state_ok c P (snd (step_op_with f (fmt_std c) c st o)).
   Proof.
-    intros Hs. destruct o as [m t k|from to_]; cbn [step_op].
-    - apply step_request_ok. exact Hs.
+    intros Hs. destruct o as [m t k|from to_]; cbn [step_op_with].
+    - destruct (f_sendable f m t); [|split; [exact I|exact Hs]].
+      pose proof (step_request_ok st m t k Hs) as [Ha Hs'].
+      destruct (step_request_with f (fmt_std c) c st m t k) as [out st']. cbn [fst snd] in *.
+      split; [|exact Hs']. destruct (f_headless f); [apply strip_head_body_ok|]; exact Ha.
     - destruct Hs as [Hc Hf].
       destruct (if pc_cache c then cache_get (KPath from) (fst st) else None) as [cr|] eqn:Hit; cbn [fst snd].
       + split; [exact I|]. split; [|exact Hf]. cbn [fst]. constructor; [|exact Hc]. cbn [snd].
@@ -205,20 +221,21 @@ Section History.
       + split; [exact I|split; assumption].
   Qed.
 
-  Lemma run_history_ok ops : forall st, state_ok c P st -> Forall (answer_ok c P) (run_history c st ops).
+  Lemma run_history_ok ops : forall st, state_ok c P st -> Forall (answer_ok c P) (run_history_with f (fmt_std c) c st ops).
   Proof.
-    induction ops as [|o ops IH]; intros st Hs; cbn [run_history]; [constructor|].
+    induction ops as [|o ops IH]; intros st Hs; cbn [run_history_with]; [constructor|].
     destruct (step_op_ok st o Hs) as [Ha Hs'].
-    destruct (step_op c st o) as [out st']. cbn [fst snd] in Ha, Hs'.
+    destruct (step_op_with f (fmt_std c) c st o) as [out st']. cbn [fst snd] in Ha, Hs'.
     constructor; [exact Ha|apply IH; exact Hs'].
   Qed.
 End History.
 
-(** Every answer in every history that starts with empty caches carries an admissible body. *)
-Lemma history_bodies_confined_lemma (c : pcfg) (root cwd P : pos) (ops : list op) :
+(** Every answer in every history that starts with empty caches carries an admissible body — through every
+    front end. *)
+Lemma history_bodies_confined_lemma (f : front) (c : pcfg) (root cwd P : pos) (ops : list op) :
   benign_host (pc_host c) -> wf_pos root -> wf_pos cwd -> pc_fs c = read_path root cwd ->
   resolve_path root cwd (h_path (pc_host c) ++ [c_slash] ++ h_public (pc_host c)) = Some P ->
-  Forall (answer_ok c P) (run_history c empty_state ops).
+  Forall (answer_ok c P) (run_history_with f (fmt_std c) c empty_state ops).
 Proof.
   intros Bh Wr Wc Fs RP. apply (run_history_ok c root cwd P Bh Wr Wc Fs RP).
   split; [constructor|apply fc_coherent_nil].
@@ -250,18 +267,18 @@ Qed.
     (empty log); the only object the operating system may be asked to open is the operator's page for
     status 400; the response cache is left as it was and the file cache changes at most under that
     page's path. *)
-Lemma unsafe_step_lemma c st m t k p q :
-  target_uri t = Some (p, q) -> unsafe (percent_decode p) -> fc_coherent (pc_fs c) (snd st) ->
+Lemma unsafe_step_lemma f c st m t k p q :
+  f_uri f t = Some (p, q) -> unsafe (percent_decode p) -> fc_coherent (pc_fs c) (snd st) ->
   exists body opens fc',
-    step_request c st m t k = (XL [XN 400; XB body; XL []; x_list XB opens], (fst st, fc')) /\
+    step_request_with f (fmt_std c) c st m t k = (XL [XN 400; XB body; XL []; x_list XB opens], (fst st, fc')) /\
     (body = errpage \/ pc_fs c (error_path (pc_host c) 400) = Some body) /\
     Forall (fun o => In o (open_name (pc_tree c) (error_path (pc_host c) 400))) opens /\
     (forall f, f <> error_path (pc_host c) 400 -> fc_get f fc' = fc_get f (snd st)).
 Proof.
-  intros Hu U Hf. unfold step_request, step_request_with. rewrite Hu. cbn zeta.
-  destruct (keys_of (override_of (pc_default_ext c) m (eff_kind t k)) (primed_path (pc_host c) p) q) as [kpq kp].
+  intros Hu U Hf. unfold step_request_with. rewrite Hu. cbn zeta.
+  destruct (keys_of (override_of (pc_default_ext c) m (f_kind f t k)) (primed_path (pc_host c) p) q) as [kpq kp].
   set (cached := option_map abstract (cache_lookup (pc_cache c) kpq kp (fst st))).
-  set (ov := override_of (pc_default_ext c) m (eff_kind t k)).
+  set (ov := override_of (pc_default_ext c) m (f_kind f t k)).
   pose proof (unsafe_is_400_and_silent_st_lemma (pc_host c) (pc_fs c) (pc_fcache c) (snd st) (meth_of m) ov cached p U) as H.
   pose proof (fcache_transparent_lemma (pc_host c) (pc_fs c) (pc_fcache c) (snd st) (meth_of m) ov cached p Hf) as T.
   assert (E : forall rr evv cc, serve (pc_host c) (pc_fs c) (meth_of m) ov cached p = (rr, evv) ->
@@ -317,13 +334,13 @@ Proof.
   rewrite F. reflexivity.
 Qed.
 
-Lemma no_override_strip_lemma c st m t k :
-  benign_host (pc_host c) -> override_of (pc_default_ext c) m (eff_kind t k) = None ->
-  step_request (strip_internal c) st m t k = step_request c st m t k.
+Lemma no_override_strip_lemma f c st m t k :
+  benign_host (pc_host c) -> override_of (pc_default_ext c) m (f_kind f t k) = None ->
+  step_request_with f (fmt_std (strip_internal c)) (strip_internal c) st m t k = step_request_with f (fmt_std c) c st m t k.
 Proof.
-  intros Bh Ho. unfold step_request, step_request_with. cbn [strip_internal pc_default_ext pc_cache pc_fcache pc_host pc_fs].
+  intros Bh Ho. unfold step_request_with. cbn [strip_internal pc_default_ext pc_cache pc_fcache pc_host pc_fs].
   rewrite Ho.
-  destruct (target_uri t) as [[p q]|]; [|reflexivity].
+  destruct (f_uri f t) as [[p q]|]; [|reflexivity].
   cbn zeta. change (primed_path (strip_host (pc_host c)) p) with (primed_path (pc_host c) p).
   destruct (keys_of None (primed_path (pc_host c) p) q) as [kpq kp].
   rewrite (serve_st_strip _ _ _ _ _ _ _ Bh). reflexivity.
